@@ -27,7 +27,7 @@ import (
 func init() {
 	core.Register(&core.Property{
 		ID: "C16", Level: "fault_enumeration", Engine: "bufexhaust",
-		Quick: 100000, Thorough: 1500000,
+		Quick: 100000, Thorough: 1200000,
 		Run:        runC16,
 		Rule:       "one run = one generated (type, value); evaluations = individual MarshalTo calls, one per destination length L in 0..Size(v)+16 and per buffer shape (cap==len, cap extends into the trailing canary): cut points are exhaustive per value, values are sampled. non-trivial = the value encodes to at least 2 bytes (so that at least one cut lands inside its output); distinct = distinct hash of (type, Marshal(v) bytes)",
 		FaultKinds: []string{"two-fields-share-one-slice", "element-changed-in-place-between-two-encodes", "values-in-turn-at-one-address", "large-value", "empty-strings-sliced-from-non-empty-ones", "destination-shorter-than-size", "destination-exact", "destination-longer", "cap-extends-past-len", "value-after-other-values-of-the-same-type", "cut-inside-varint-or-tag", "cut-inside-bytes-or-string", "cut-inside-embedded-message", "cut-inside-repeated", "cut-inside-map-entry", "cut-inside-custom-message", "cut-inside-fixed"},
